@@ -7,6 +7,7 @@ interleavings of reader, matcher, timer, event loop and user events, all chunkin
 the `rPush` labels sit) and all query / mode / command histories (`user (setQuery ..)`, `user (setCmd ..)`).
 -/
 import SkimModel.Lemmas.Session
+import SkimModel.Lemmas.SessionLive
 namespace SkimModel.Session
 open SkimModel.Pool
 variable {α κ : Type}
@@ -140,6 +141,29 @@ theorem c01_no_deadlock (m : κ → α → Bool) (o : Opts) (q : κ) (src : List
         rcases h1 with h2 | h2
         · exact ⟨.tTake, (fun e h => by cases h), by simp [step, stepWith, hmc, h2]⟩
         · exact ⟨.tPublish, (fun e h => by cases h), by simp [step, stepWith, hmc, h2]⟩
+
+
+/-- Liveness, part 3: quiescence is REACHABLE without a keystroke.  From every reachable unfinished state
+    in which no user event is pending (every keystroke so far has been handled; select-1/exit-0 sessions end
+    by themselves and are C14's subject) there is a finite continuation made only of internal labels —
+    reader, matcher, timer, and event-loop iterations whose reads are accurate — that ends in a state where
+    the source has ended and matching has caught up (where, by `c01_quiescent_exact`, the list is exactly the
+    matching items).  The proof is constructive: a canonical schedule along which a lexicographic measure
+    (reader work, work class, matcher phase, heart-beat pending) strictly decreases.  Together with parts 1
+    and 2 this is everything short of the fairness assumption itself. -/
+theorem c01_quiescence_reachable (m : κ → α → Bool) (o : Opts) (q : κ) (src : List α) (ls : List (Label α κ)) :
+    let s := runL m (initWith o q src) ls
+    s.finished = none → s.queue.all Ev.isHB = true → s.select1 = false → s.exit0 = false →
+      ∃ ls' : List (Label α κ), (∀ l ∈ ls', ∀ e, l ≠ .user e) ∧
+        SourceEnded (runL m s ls') ∧ CaughtUp (runL m s ls') := by
+  intro s hf hq h1 h0
+  have hr : Ready m s :=
+    ⟨c01_invariant m o q src ls, c01_wakeup_pending m o q src ls hf, hf, hq, h1, h0⟩
+  obtain ⟨ls', hall, hquiet, _⟩ := reach_quiet m (mu s) s (Nat.le_refl _) hr
+  refine ⟨ls', ?_, hquiet.1, hquiet.2⟩
+  intro l hl e he
+  have := hall l hl
+  rw [he] at this; simp [Label.internal] at this
 
 /-- Session-level identity of candidates (used by C10 / C15 / C05): in every reachable state with no
     clear pending, every listed entry `(i, x)` is the item at position `i` of the current pool — the
